@@ -118,6 +118,9 @@ def run_driver(name, params, workdir):
         kw = dict(ra_name="ra", dec_name="dec", weight_name="w", redshift_name="z", chunksize=params["chunk"], max_workers=mw, progress=progress)
         if params["mode"] == "centres":
             kw["patch_centers"] = AngularCoordinates(np.deg2rad(CENTRES_DEG))
+        elif params["mode"] == "empty_centre":
+            # one of the given centres attracts no object: refused (ValueError) by every rank, as by a single process
+            kw["patch_centers"] = AngularCoordinates(np.deg2rad(np.vstack([CENTRES_DEG, [[200.0, -60.0]]])))
         elif params["mode"] == "generate":
             kw.update(patch_num=2, probe_size=params["n"])
         else:
